@@ -33,13 +33,18 @@ Key(c, d, what) ==
 Judge(e) ==
   LET c == e.case
       d == IF c.kind = "char" THEN [ok |-> TRUE, neg |-> FALSE, mag |-> <<c.value \div 65536, c.value % 65536>>]
+           ELSE IF c.kind = "badchar" THEN [ok |-> FALSE, neg |-> FALSE, mag |-> <<0, 0>>]      \* not in the grammar (Gen_CharLit)
            ELSE Denote(c.cps)
   IN
   IF e.ev # "obs" THEN << Key(c, d, e.ev) >>
   ELSE
   LET accepted == Len(e.errors) = 0 /\ Len(e.nodes) >= 2 /\ e.nodes[2].k \notin {"Label"}
                   /\ (c.ctx = "word" => Len(e.nodes[2].vals) = 1)
-      onlit == Len(e.errors) >= 1 /\ e.errors[1].r0 = c.off /\ e.errors[1].r1 = c.off + Len(c.cps) - 1
+      \* a malformed character literal is not one token: the error must start inside the text of the literal
+      \* (how far its range extends is C09's business)
+      onlit == IF c.kind = "badchar"
+                 THEN Len(e.errors) >= 1 /\ e.errors[1].r0 >= c.off /\ e.errors[1].r0 <= c.off + Len(c.cps) - 1
+                 ELSE Len(e.errors) >= 1 /\ e.errors[1].r0 = c.off /\ e.errors[1].r1 = c.off + Len(c.cps) - 1
       must_reject == ~d.ok \/ ~In32Bits(d)
                      \/ (c.ctx = "lui" /\ ~d.neg /\ (d.mag[1] >= 16))
       must_accept == d.ok /\ InInt32(d) /\ (c.ctx = "lui" => (~d.neg /\ d.mag[1] < 16))
